@@ -1,4 +1,4 @@
-"""C16 — names are stored and compared faithfully at every length (mptcore/misc/identifier.c)."""
+"""C16 — names are stored and compared faithfully at every length (mptcore/misc/identifier.c, mpt++/identifier.cpp)."""
 import random
 import vcheck
 from vcheck import DiffProperty
@@ -6,7 +6,11 @@ from vcheck import DiffProperty
 SIZES = [16, 24, 32, 64, 88, 128, 216, 256]
 LIM = 65535
 ARITY = {"set": 2, "setz": 2, "raw": 2, "copy": 2, "copyn": 1, "cmp": 2, "cmpz": 2, "cmpn": 2,
-         "ineq": 2, "new": 1, "node": 1}
+         "ineq": 2, "new": 1, "node": 1,
+         # members of the C++ class identifier (harness/c16_cxx.cpp)
+         "xset": 2, "xsetz": 2, "xraw": 2, "xeq": 2, "xeqz": 2, "xeqn": 2, "xname": 1,
+         "xcopy": 2, "xctor": 2, "xnew": 2, "xitem": 1}
+ITEM_IDENT = 24     # item<T>: 32 bytes, identifier part constructed with total = 24
 
 
 def hx(bs):
@@ -66,6 +70,8 @@ class C16(DiffProperty):
     driver = "c16_driver.ml"
     harness_src = "c16_ident.c"
     libs = ["mptcore"]
+    cxx_harness_src = "c16_cxx.cpp"     # cases that use the C++ class (built and run by evaluate() below)
+    cxx_libs = ["mpt++", "mptcore"]
     claimed = True
     harness_env = vcheck.ASAN_LEAK_ENV
     rule = ("cases = 1..4 identifiers on exact-size heap storage (sizes 16,24,32,64,88,128,216,256 and random 16..256, or from "
@@ -74,33 +80,96 @@ class C16(DiffProperty):
             "around 0, the 4-byte start of the overlaid pointer, its end (12), the inline capacity -3..+2, twice the capacity, 300 and "
             "65533/65534 (text) resp. 65535 (raw), the too-long lengths 65535/65536, once by set-after-set and once by copy from a "
             "second identifier of every size, each followed by compare with the equal and a one-byte-different name and by inequal; "
-            "plus random histories with lengths drawn from the same sets; a case is non-trivial when some identifier changes between "
+            "plus random histories with lengths drawn from the same sets; the C++ class identifier (mpt++/identifier.cpp, second harness "
+            "binary c16_cxx.cpp with identifier.cpp compiled in): objects constructed by placement new on exact-size storage "
+            "(identifier(total) for 16..256 bytes, item<T> = 32 bytes with a 24-byte identifier part, C objects from mpt_identifier_new) + "
+            "set_name (explicit, default and NULL name)/equal/name/operator= (self assignment included)/destructor followed by copy "
+            "construction from another object/destructor followed by identifier(total) or item<T>() in the same slot, mixed with the C "
+            "functions on the same objects; quick: (previous length x new length) tables for 16, item<T>, 32, 256 bytes over the lengths "
+            "0, 4, 11, capacity-1, capacity, twice the capacity (text) and 0, 5, capacity, capacity+1 (raw) plus the 65 k limits, by "
+            "set_name after set_name, by operator= and by copy construction from a second object of another size, each followed by "
+            "name(), equal() with the equal and one-byte-different names and inequal; construction over objects holding inline and "
+            "allocated names; 600 random member/function histories; every case ends with the destructor of every object; "
+            "a case is non-trivial when some identifier changes between "
             "inline and allocated content or a comparison is made; distinct = distinct case text")
     modelled = ("mptcore/misc/identifier.c {mpt_identifier_new (size ladder), _init, _set, _copy, _compare, _inequal, _data} and the "
                 "size ladder of mptcore/node/node_new.c transcribed in coq/C16/IdentModel.v (inline bytes as cells that overlay the "
-                "pointer field, ghost heap with allocation tokens); malloc failure, _identifier_init/_identifier_fini (type traits, "
-                "property C05), mpt++/identifier.cpp wrappers (one-line forwards) and mpt_node_locate are not modelled")
+                "pointer field, ghost heap with allocation tokens); mpt++/identifier.cpp {identifier(size_t), identifier(const identifier &), "
+                "equal, operator=, set_name, name} and the inline destructor of mptcore/core.h as compositions of those operations "
+                "(xinit, xcopy_init = init 16 + copy, xequal = compare is 0, xassign = copy, xset_name = set, xname = charset test + data, "
+                "xfini = set(NULL, 0)) run by the world operations OXSet/OXEqual/OXName/OXAssign/OXCtor/OXNew; mpt_node_locate in "
+                "coq/C16/Locate.v; malloc failure, _identifier_init/_identifier_fini (type traits, property C05), the implicit copy "
+                "constructor of item<T> and the reference<T> half of item<T> are not modelled")
     trusted = ["harness/c16_ident.c reads _len/_charset and the _len bytes behind mpt_identifier_data() after every operation; "
                "heap blocks are counted by the ASan malloc/free hooks while a library call is active, LeakSanitizer is asked at the end of each case",
+               "harness/c16_cxx.cpp compiles mpt++/identifier.cpp into its translation unit, constructs and destroys the objects by placement "
+               "new / explicit destructor calls on exact-size malloc storage and reads _len/_charset from the object bytes (offsets 0, 2), "
+               "the name bytes through mpt_identifier_data() and, for name(), through the returned address",
                "malloc is assumed to succeed"]
     level_text = ("proof: Coq theorems C16_set_get / C16_set_get_cstring / C16_set_raw / C16_set_too_long_refused / "
                   "C16_refused_unchanged / C16_copy_equal_src_untouched / C16_compare_iff_equal / C16_compare_cstring_iff_equal / "
                   "C16_inequal_iff_equal / C16_step_refines_names / C16_history_refines_names / C16_heap_discipline / C16_new_capacity / "
-                  "C16_new_limit state, for every inline capacity >= 12 (storage size 16..256 and beyond), every content length up to the "
+                  "C16_new_limit / C16_class_set_name_is_set / C16_class_assign_is_copy / C16_class_equal_iff_equal / C16_class_name_reads / "
+                  "C16_class_set_name_then_name / C16_class_copy_ctor_equal_src_untouched / C16_class_ctor_unset / "
+                  "C16_class_destroy_all_no_live_block state, for every inline capacity >= 12 (storage size 16..256 and beyond), every content length up to the "
                   "16-bit limit, every previous content (inline or allocated) and every history of set/copy/clear/compare/inequal "
-                  "operations on any number of identifiers (no bound), that the transcribed mechanism (inline bytes overlaying the pointer "
+                  "operations and of the members of the C++ class (set_name, equal, name, operator=, destruction followed by copy "
+                  "construction or construction, so the capacity of a slot changes) on any number of identifiers (no bound), that the transcribed mechanism (inline bytes overlaying the pointer "
                   "field, ghost heap of allocation tokens) reads back exactly the bytes and length that were set, copies without touching "
                   "the source, reports equality exactly for equal content, leaves refused operations without effect, never faults (no bad "
                   "free, no read through an overwritten pointer, no access outside the storage), frees every allocation exactly once and "
-                  "holds no allocation after the identifiers are cleared; the model is tied to the code on every run by differential "
+                  "holds no allocation after the identifiers are cleared (= after the destructor of every object); a copy-constructed "
+                  "object has the 16-byte layout, equals its source and leaves it untouched, name() hands out exactly the stored text "
+                  "name and NULL for other content; the model is tied to the code on every run by differential "
                   "execution under ASan/UBSan with malloc/free hooks and LeakSanitizer")
     level_note = ("trusted: Coq kernel; hand transcription of identifier.c (validated by the correspondence run, not verified); extraction "
-                  "(ExtrOcamlBasic) and OCaml driver; harness; malloc success; C++ wrappers and type-traits callbacks not modelled. "
+                  "(ExtrOcamlBasic) and OCaml driver; both harnesses; malloc success; the members of mpt++/identifier.cpp are modelled as "
+                  "compositions of the C operations (each is a forward of one or two lines; the composition is what the correspondence run "
+                  "checks); type-traits callbacks and item<T>'s implicit copy constructor not modelled. "
                   "Theorems are closed under the global context (no axioms).")
     technique = "Coq refinement proof (overlaid inline/allocated storage + ghost heap -> plain byte strings) + differential correspondence check"
     assumptions = ["malloc succeeds", "identifier storage is at least 16 bytes (sizeof(struct identifier)) and at most 256",
                    "caller buffers hold the announced number of bytes / a terminated string",
                    "an identifier is initialised once before use and not shared between threads"]
+
+    # ------------------------------------------------------------------ two harness binaries, one model run
+    def is_cxx(self, case):
+        if case.startswith("L "):
+            return False
+        t = case.split()
+        k = t.index("--")
+        return any(h[0] == "t" for h in t[:k]) or any(x in ARITY and x[0] == "x" for x in t[k + 1:])
+
+    def evaluate(self, cases, workdir, tagsuffix=""):
+        """cases that use the class identifier go to harness/c16_cxx.cpp (mpt++/identifier.cpp compiled in), the others
+        to harness/c16_ident.c"""
+        hx = vcheck.build_harness(self.harness_src, self.libs, extra=self.extra_harness_flags)
+        mx = vcheck.build_model(self.mlname, self.driver, self.extract_vo)
+        ided = ["c%d %s" % (i, c) for i, c in enumerate(cases)]
+        parts = [(hx, "impl", [l for l, c in zip(ided, cases) if not self.is_cxx(c)]),
+                 (None, "implcxx", [l for l, c in zip(ided, cases) if self.is_cxx(c)])]
+        I, errs = {}, []
+        for exe, tag, lines in parts:
+            if not lines:
+                continue
+            if exe is None:
+                exe = vcheck.build_harness(self.cxx_harness_src, self.cxx_libs, extra=self.extra_harness_flags)
+            r, e = vcheck.run_cases(exe, lines, workdir, tag + tagsuffix, env=self.harness_env, args=self.harness_args)
+            errs += e
+            r = r.get("I", {})
+            late = [l for l in lines if any(t.startswith("F:timeout") for t in (r.get(l.split(None, 1)[0]) or []))]
+            if late and not self.harness_args:
+                r2, e2 = vcheck.run_cases(exe, late, workdir, tag + "late" + tagsuffix, env=self.harness_env, args=["60"],
+                                          shards=min(4, len(late)))
+                r.update(r2.get("I", {}))
+                errs += e2
+            I.update(r)
+        M, e3 = vcheck.run_cases(mx, ided, workdir, "model" + tagsuffix)
+        res = []
+        for i, c in enumerate(cases):
+            k = "c%d" % i
+            res.append(self.compare(c, I.get(k), M.get("M", {}).get(k), M.get("S", {}).get(k)))
+        return res, errs + e3
 
     # ------------------------------------------------------------------ views
     def project(self, tok):
@@ -151,26 +220,28 @@ class C16(DiffProperty):
         for o in ops:
             if o[0] not in ("new", "node"):
                 used.add(int(o[1]))
-                if o[0] in ("copy", "ineq"):
+                if o[0] in ("copy", "ineq", "xcopy", "xctor"):
                     used.add(int(o[2]))
         ns = len(hdr) - 1
         if ns > 1 and (ns - 1) not in used:
             yield self.join(hdr[:ns - 1] + ["--"], ops)
         # smaller data / lengths
         for k, o in enumerate(ops):
-            if o[0] in ("set", "setz", "cmp", "cmpz"):
+            if o[0] in ("set", "setz", "cmp", "cmpz", "xset", "xsetz", "xeq", "xeqz"):
                 n = dlen(o[2])
                 for m in sorted({n // 2, n - 1, n - 8, 5, 12}):
                     if 0 <= m < n:
                         yield self.join(hdr, ops[:k] + [[o[0], o[1], "g%d.1" % m if m else "-"]] + ops[k + 1:])
-            if o[0] in ("raw", "cmpn", "new", "node"):
+            if o[0] == "xnew" and int(o[2]) > 16:
+                yield self.join(hdr, ops[:k] + [[o[0], o[1], "16"]] + ops[k + 1:])
+            if o[0] in ("raw", "cmpn", "new", "node", "xraw", "xeqn"):
                 n = int(o[-1])
                 for m in sorted({n // 2, n - 1}):
                     if 0 <= m < n:
                         yield self.join(hdr, ops[:k] + [o[:-1] + [str(m)]] + ops[k + 1:])
         # smaller storage
         for k in range(ns):
-            if hdr[k][0] == "s" and int(hdr[k][1:]) > 16:
+            if (hdr[k][0] == "s" and int(hdr[k][1:]) > 16) or hdr[k][0] == "t":
                 yield self.join(hdr[:k] + ["s16"] + hdr[k + 1:], ops)
 
     def maxes(self, hdr):
@@ -179,7 +250,9 @@ class C16(DiffProperty):
             if h == "--":
                 break
             n = int(h[1:])
-            if h[0] == "w":
+            if h[0] == "t":
+                mx.append(ITEM_IDENT - 4)
+            elif h[0] == "w":
                 if n > LIM:
                     continue
                 size = 32
@@ -222,18 +295,40 @@ class C16(DiffProperty):
             i = int(o[1])
             if i >= len(mx):
                 continue
-            if k in ("set", "setz"):
+            if k[0] == "x":
+                cl.add("cxx")
+            if k in ("set", "setz", "xset", "xsetz"):
                 n = dlen(o[2]) + 1
                 if n > LIM:
                     cl.add("refused-too-long")
                 else:
-                    trans("set", i, n)
-            elif k == "raw":
+                    trans(k.rstrip("z"), i, n)
+            elif k in ("raw", "xraw"):
                 n = int(o[2])
                 if n < 0 or n > LIM:
                     cl.add("refused-too-long")
                 else:
-                    trans("raw", i, n)
+                    trans(k, i, n)
+            elif k == "xname":
+                cl.add("cxx:name")
+            elif k in ("xnew", "xitem"):
+                # destructor of the old object, then a new capacity
+                trans("xdtor", i, 0)
+                mx[i] = ITEM_IDENT - 4 if k == "xitem" else min(int(o[2]) - 4, 252)
+                cl.add("cxx:new-capacity")
+            elif k == "xctor":
+                j = int(o[2])
+                if j < len(mx) and i != j:
+                    trans("xdtor", i, 0)
+                    mx[i] = 12
+                    trans("xctor", i, ln[j])
+            elif k == "xcopy":
+                j = int(o[2])
+                if j < len(mx):
+                    if i == j:
+                        cl.add("xcopy-self")
+                    else:
+                        trans("xcopy", i, ln[j])
             elif k == "copyn":
                 trans("clear", i, 0)
             elif k == "copy":
@@ -243,7 +338,7 @@ class C16(DiffProperty):
                         cl.add("copy-self")
                     else:
                         trans("copy", i, ln[j])
-            elif k in ("cmp", "cmpz", "cmpn", "ineq"):
+            elif k in ("cmp", "cmpz", "cmpn", "ineq", "xeq", "xeqz", "xeqn"):
                 cl.add("compare")
         if len(ops) > 6:
             cl.add("history")
@@ -359,7 +454,137 @@ class C16(DiffProperty):
         for i in range(2000 if quick else 60000):
             cases.append(self.history(rng, big=(i % 5 == 0)))
         cases += self.locate_cases(rng, 1500 if quick else 30000)
+        cases += self.cxx_cases(rng, quick)
+        for i in range(600 if quick else 20000):
+            cases.append(self.cxx_history(rng, big=(i % 10 == 0)))
         return cases
+
+    # ---- the C++ class identifier (mpt++/identifier.cpp): harness/c16_cxx.cpp
+    def cxx_cases(self, rng, quick):
+        """(previous length x new length) tables through the members: set_name after set_name, operator= from a second
+        object, destruction + copy construction from a second object (the new object always has capacity 12), each followed
+        by name(), equal() with the equal and a one-byte-different name, inequal; C functions mixed in on the same objects"""
+        cases = []
+        hdrs = ["s16", "t32", "s32", "s256"] if quick else ["s16", "s17", "t32", "s24", "s32", "s64", "s88", "s128", "s216", "s256"]
+        n = 0
+        for hd in hdrs:
+            mx = self.maxes([hd])[0]
+            nl = sorted({0, 4, 11, mx - 1, mx, 2 * mx} if quick else set(name_lengths(mx, False)))
+            rl = sorted({0, 5, mx, mx + 1} if quick else set(raw_lengths(mx, False)))
+            prevs = [("n", x) for x in nl if x >= 0] + [("r", x) for x in rl]
+            news = prevs + [("n", LIM), ("r", LIM + 1), ("r", -1), ("n", LIM - 1), ("r", LIM)]
+            for pk, pl in prevs:
+                for nk, nlen in news:
+                    n += 1
+                    if max(pl, nlen) > 1000 and n % (4 if quick else 1):
+                        continue
+                    hd2 = (hdrs + ["w60", "w0"])[n % (len(hdrs) + 2)]
+                    cxx_first = n % 3 != 0      # otherwise the previous content is put by the C function
+
+                    def put(i, k, l, cxx=True):
+                        x = "x" if cxx else ""
+                        if k == "r":
+                            return [x + "raw", str(i), str(l)], None
+                        d = data(rng, l, zeros=(n % 7 == 0))
+                        if n % 5 == 0 and l <= 300 and d[0] == "g":
+                            return [x + "setz", str(i), d], d
+                        return [x + "set", str(i), d], d
+
+                    def checks(i, d, l):
+                        if d is not None and l + 1 <= LIM:
+                            c = ["xname", str(i), "xeq", str(i), d, "xeq", str(i), altered(rng, d)]
+                            if dlen(d) and l < 1000:
+                                c += ["xeq", str(i), altered(rng, d, 0), "xeqz" if d[0] == "g" and l <= 300 else "xeq", str(i), d,
+                                      "cmp", str(i), d]
+                            return c
+                        return ["xname", str(i), "xeqn", str(i), str(max(l - 1, 0)), "xeqn", str(i), str(l)]
+                    o1, _ = put(0, pk, pl, cxx_first)
+                    # A: set_name after set_name / set
+                    o2, d2 = put(0, nk, nlen)
+                    cases.append(" ".join([hd, "--"] + o1 + o2 + checks(0, d2, nlen)))
+                    # B: operator= from a second object, then the source changes
+                    o2b, d2b = put(1, nk, nlen, n % 4 != 0)
+                    tail = ["ineq", "0", "1", "xset", "1", "41", "ineq", "0", "1"] + checks(0, d2b, nlen)[:5] + ["xcopy", "0", "0", "xname", "0"]
+                    cases.append(" ".join([hd, hd2, "--"] + o1 + o2b + ["xcopy", "0", "1"] + tail))
+                    # C: the object in slot 0 is destroyed, a copy of slot 1 is constructed there
+                    cases.append(" ".join([hd, hd2, "--"] + o1 + o2b + ["xctor", "0", "1"] + tail))
+        # construction with a total size / item<T> over objects that hold an allocated or inline name
+        for hd in hdrs:
+            mx = self.maxes([hd])[0]
+            for l in (0, 11, mx - 1, mx, 300):
+                for tgt in (["xnew", "0", "16"], ["xnew", "0", "256"], ["xnew", "0", str(rng.randrange(16, 257))], ["xitem", "0"]):
+                    d = data(rng, l)
+                    d2 = data(rng, rng.choice([3, 11, 19, 20, 40]))
+                    cases.append(" ".join([hd, "--", "xset", "0", d] + tgt + ["xname", "0", "xeqn", "0", "0", "xset", "0", d2,
+                                                                              "xname", "0", "xeq", "0", d2]))
+        return cases
+
+    def cxx_history(self, rng, big):
+        ns = rng.choice([2, 2, 3, 3, 4])
+        hdr = []
+        for _ in range(ns):
+            r = rng.random()
+            if r < 0.5:
+                hdr.append("s%d" % rng.choice(SIZES))
+            elif r < 0.65:
+                hdr.append("s%d" % rng.randrange(16, 257))
+            elif r < 0.85:
+                hdr.append("t32")
+            else:
+                hdr.append("w%d" % rng.choice([0, 12, 28, 29, 60, 61, 124, 252, 253, 1000]))
+        mx = self.maxes(hdr)
+        ops = []
+        last = {}
+        for _ in range(rng.choice([3, 5, 8, 12, 16])):
+            i = rng.randrange(ns)
+            k = rng.choice(["xset", "xset", "xsetz", "xraw", "xcopy", "xcopy", "xctor", "xctor", "xnew", "xitem", "xname", "xname",
+                            "xeq", "xeqz", "xeqn", "set", "raw", "copy", "copyn", "cmp", "ineq"])
+            if k in ("xset", "xsetz", "xeq", "xeqz", "set", "cmp"):
+                l = rng.choice(name_lengths(mx[i], big and rng.random() < 0.15) + [LIM] * (1 if rng.random() < 0.05 else 0))
+                if k in ("xsetz", "xeqz"):
+                    o = [k, str(i), "g%d.%d" % (min(l, 300), rng.randrange(50)) if l else "-"]
+                else:
+                    o = [k, str(i), data(rng, l, zeros=rng.random() < 0.15)]
+                if k in ("xeq", "xeqz", "cmp") and str(i) in last and rng.random() < 0.6:
+                    d = last[str(i)]
+                    if k != "xeqz" or (d[0] == "g" and dlen(d) <= 300):
+                        o = [k, str(i), d if rng.random() < 0.6 else altered(rng, d, rng.randrange(max(1, dlen(d))))]
+                if k in ("xset", "xsetz", "set"):
+                    last[str(i)] = o[2]
+            elif k in ("xraw", "xeqn", "raw"):
+                l = rng.choice(raw_lengths(mx[i], big and rng.random() < 0.15) + [-1, LIM + 1] * (1 if rng.random() < 0.1 else 0))
+                o = [k, str(i), str(l)]
+                last.pop(str(i), None)
+            elif k in ("xcopy", "copy", "ineq"):
+                j = rng.randrange(ns)
+                o = [k, str(i), str(j)]
+                if k != "ineq" and str(j) in last:
+                    last[str(i)] = last[str(j)]
+                elif k != "ineq":
+                    last.pop(str(i), None)
+            elif k == "xctor":
+                j = rng.choice([x for x in range(ns) if x != i])
+                o = [k, str(i), str(j)]
+                mx[i] = 12
+                if str(j) in last:
+                    last[str(i)] = last[str(j)]
+                else:
+                    last.pop(str(i), None)
+            elif k == "xnew":
+                sz = rng.choice(SIZES + [rng.randrange(16, 257)])
+                o = [k, str(i), str(sz)]
+                mx[i] = min(sz - 4, 252)
+                last.pop(str(i), None)
+            elif k == "xitem":
+                o = [k, str(i)]
+                mx[i] = ITEM_IDENT - 4
+                last.pop(str(i), None)
+            else:
+                o = [k, str(i)]
+                if k == "copyn":
+                    last.pop(str(i), None)
+            ops += o
+        return " ".join(hdr + ["--"] + ops)
 
     # node lookup by name (mpt_node_locate): names around the inline capacity of each node size
     def locate_cases(self, rng, n):
